@@ -19,6 +19,14 @@ func scenario(cfg hx.GCfg, P, M, S, c int, preSub bool) *explore.Scenario {
 	return scenarioB(cfg, P, M, S, c, preSub, false)
 }
 
+// reuse: what a publisher may do with its own message value once Publish has returned (recycle it for the
+// next message): the Pub/Sub's log and deliveries must not change retroactively.
+func reuse(m *message.Message) {
+	m.UUID = "recycled-by-publisher"
+	m.Payload = []byte("recycled")
+	m.Metadata.Set("recycled", "yes")
+}
+
 // batch: each publisher hands its M messages to a single Publish call.
 func scenarioB(cfg hx.GCfg, P, M, S, c int, preSub bool, batch bool) *explore.Scenario {
 	name := fmt.Sprintf("%s/P%dxM%d/S%d", cfg, P, M, S)
@@ -78,7 +86,11 @@ func scenarioB(cfg hx.GCfg, P, M, S, c int, preSub bool, batch bool) *explore.Sc
 							ms = append(ms, m)
 							us = append(us, m.UUID)
 						}
-						if err := g.Publish("t", ms...); err == nil {
+						err := g.Publish("t", ms...)
+						for _, m := range ms {
+							reuse(m)
+						}
+						if err == nil {
 							published[p] = append(published[p], us...)
 						} else {
 							vs.Fail("publish-error", "Publish on open Pub/Sub failed: %v", err)
@@ -87,8 +99,11 @@ func scenarioB(cfg hx.GCfg, P, M, S, c int, preSub bool, batch bool) *explore.Sc
 					}
 					for i := 0; i < M; i++ {
 						m := hx.Msg(fmt.Sprintf("p%dm%d", p, i))
-						if err := g.Publish("t", m); err == nil {
-							published[p] = append(published[p], m.UUID)
+						u := m.UUID
+						err := g.Publish("t", m)
+						reuse(m)
+						if err == nil {
+							published[p] = append(published[p], u)
 						} else {
 							vs.Fail("publish-error", "Publish on open Pub/Sub failed: %v", err)
 						}
